@@ -32,7 +32,8 @@ CLAIMED = {
             "checked for agreeing views, and every outermost public Sequence call logged while the repository's own tests run "
             "(quick: four fast files, thorough: the whole suite) is validated against the same protocol by Trace_SeqViewsLog.",
             "Content is abstracted to a value in the model; concrete arguments per operation are fixed in the harness; "
-            "histories that interleave a suspended generator with other calls are outside 'legal' (documented by the library).", "4 (C04)"),
+            "histories that interleave a suspended generator with other calls are outside 'legal' (documented by the library); "
+            "in-turn edits include time edits that move a non-note event past its neighbours.", "4 (C04)"),
     "C14": ("Transpose", "TLC model check of Transpose.tla (message-at-a-time shift/wrap/key system) + execution of its initial "
             "states on real Sequence and Bar objects + TLC trace validation",
             "TLC checks range, pitch-class image, flag and inverse laws on the reference system for every piece (<=2 notes at "
@@ -123,8 +124,9 @@ CLAIMED = {
             "control changes) are saved and loaded by the real code; TLC requires one sequence per saved one, identical "
             "notes, signatures in force at every signature tick equal to the saved ones (4/4 default) and none off the meta "
             "sequence.",
-            "mido is trusted to write and read files; saved sequences are single-channel per pitch (a MIDI track written by "
-            "the library carries no channel).", "6 (C12/C13)"),
+            "mido is trusted to write and read files; a saved sequence may hold two channels (a pitch released on one and "
+            "struck on the other at the same tick included) but no pitch sounds on two channels at once; a fifth of the "
+            "random sequences are two-channel, every third case re-uses the path of an earlier save.", "6 (C12/C13)"),
     "C13": ("MidiCodec", "same writer/reader model + files written directly with mido at 13 resolutions loaded by the real code "
             "under random routing + TLC trace validation against the file as parsed by mido",
             "For each loaded note and signature event TLC requires a file event of its class whose exact position "
@@ -132,7 +134,8 @@ CLAIMED = {
             "sounding set of every group to be the union of its tracks' notes with both ends rounded (checked when no event "
             "lies exactly half way, where the rounding direction is free), signatures of all considered tracks in force on "
             "the target sequence and nowhere else, the 4/4 default, and well-formed output. Files include sub-resolution "
-            "notes, runs of 1-tick deltas, note-on velocity 0 as note-off, tracks outside every group.",
+            "notes, runs of 1-tick deltas, note-on velocity 0 as note-off, tracks outside every group, keys named by their "
+            "relative minor.",
             "mido is trusted; ties at exactly half a tick are judged by the nearest-tick clause only.", "6 (C12/C13)"),
     "C01": ("Tokeniser", "TLC model check of TokeniserSys.tla (tokenise / detokenise / annotate automata in lock-step, round trip, "
             "duration) + its initial states and seeded random pieces over the configuration lattice run through the real "
